@@ -155,6 +155,8 @@ R.contract(
     raises=["TypeError", "ValueError"],
     ensures={
         "hook_gets_exactly_its_own_filters": "func.filter_set is ghost('accumulated') or (written_set(ghost('decorator')) is not None and func.filter_set is written_set(ghost('decorator')))",
+        # `register("name").apply_to(...)` / `.skip_for(...)`: BOTH chains must write into the set that this hook is registered with
+        "filters_chained_after_the_name_reach_this_hook": "written_set(ghost('decorator')) is not None and written_set(ghost('decorator')) is func.filter_set",
         "filters_given_before_by_name_registration_are_not_lost": "length(ghost('accumulated')._includes) + length(ghost('accumulated')._excludes) == 0 or func.filter_set is ghost('accumulated')",
         "invariant_reestablished_for_next_registration": INV_AFTER,
         "registered_once": "ghost('registered') == 1 and result is func",
